@@ -614,9 +614,21 @@ def sole_outcome(ctx, outs, label):
                 R.ok(rid, label)
                 continue
             raise AnalysisError(f"{label}: several normal outcomes with the same effects but different results")
+        # the exit is taken when some value is None and everything it skips needs that very value (write to a file that was not
+        # named, remove an element that was not found): nothing is lost
+        none_terms = []
+        for c_, pol_ in norm_guards([(c0, True) for c0 in conjuncts(x.conds)]):
+            if isinstance(c_, App) and c_.op in ("is", "is not") and Const(None) in c_.args and (c_.op == "is") == pol_:
+                none_terms += [a_ for a_ in c_.args if a_ != Const(None)]
+        if none_terms and all(any(t_ in list(subterms(e)) for t_ in none_terms) for e in missing):
+            R.ok(rid, label)
+            continue
         # "look something up; nothing found -> nothing to do": the exit is guarded by `<computed value> is None`.  Whether the work it
         # skips was only ever meant for a found value cannot be judged here - not a verdict
         for c_, pol_ in norm_guards([(c0, True) for c0 in conjuncts(x.conds)]):
+            if isinstance(c_, App) and c_.op == "loopbroke" and not pol_:
+                raise AnalysisError(f"{label}: a normal exit taken when a search loop found nothing (for ... else) skips part of the work of the other "
+                                    f"exits - cannot judge whether that work applies without a match")
             if isinstance(c_, App) and c_.op in ("is", "is not") and Const(None) in c_.args and (c_.op == "is") == pol_:
                 other = [a_ for a_ in c_.args if a_ != Const(None)]
                 if other and not isinstance(other[0], Sym) and not (isinstance(other[0], App) and (other[0].op.startswith("attr:") or other[0].op == "idx")):
